@@ -1055,9 +1055,10 @@ pub fn gen_sysex(r: &mut Rng) -> History {
                 });
             }
         } else {
-            // manufacturer id + a payload that looks like note / controller messages
+            // manufacturer id + a payload that looks like note / controller messages (sometimes a long dump)
             e.raw(*r.pick(&[0x41u8, 0x43, 0x00, 0x7D]));
-            for _ in 0..r.below(12) {
+            let len = if r.chance(0.25) { *r.pick(&[127u64, 128, 129, 130, 255, 256, 257, 600]) } else { r.below(12) };
+            for _ in 0..len {
                 e.raw(*r.pick(&[60u8, 100, 7, 1, 123, 121, 0, 127, 64]));
             }
         }
@@ -1342,8 +1343,12 @@ pub fn gen_catalogue(r: &mut Rng, ch: u8, which: usize, split: Option<usize>) ->
     for (i, b) in base.iter().enumerate() {
         match split {
             Some(s) if s == i => {
-                for _ in 0..(1 + r.below(3)) {
-                    ops.push(Op::Byte(*r.pick(&RT)));
+                // mostly one to three real-time bytes; sometimes a long run of them (a clock that keeps ticking while
+                // the sender pauses in mid-message: a quarter note is 24 clocks, a bar 96)
+                let n = if r.chance(0.15) { *r.pick(&[23u64, 24, 25, 48, 96, 97, 255, 256, 257, 1000]) } else { 1 + r.below(3) };
+                let same = r.chance(0.5);
+                for _ in 0..n {
+                    ops.push(Op::Byte(if same { 0xF8 } else { *r.pick(&RT) }));
                 }
             }
             None => {
